@@ -17,6 +17,10 @@ class HarnessError(BaseException):
     pass
 
 
+class NoHandle(Exception):
+    pass
+
+
 class CallableError(Exception):
     pass
 
@@ -72,7 +76,7 @@ class CbObj:
         h = impl.handle_of.get(id(job), -1)
         nr = job.next_run
         impl.out.append(f'cb {self.kind} {self.cbid} {h} {job.status.value} '
-                        f'{"-" if nr is None else ns_of_instant(nr) - impl.base}')
+                        f'{"-" if nr is None else ns_of_instant(nr) - impl.base} {impl.loop.now_ns - impl.base}')
         if self.cbid in impl.cb_fail:
             raise CallbackError()
 
@@ -195,19 +199,25 @@ class SchedImpl:
                         if key is not None and key >= 1000:
                             self.auto_key[c.id] = key
                     elif op in ('cancel', 'pause', 'resume', 'stop', 'reset'):
-                        c = self.controls[int(tok[2])]
+                        c = self.controls.get(int(tok[2]))
+                        if c is None:
+                            raise NoHandle()
                         m = getattr(c, op, None)
                         if m is None:
                             raise NotImplementedError()
                         m()
                     elif op == 'setcd':
-                        c = self.controls[int(tok[2])]
+                        c = self.controls.get(int(tok[2]))
+                        if c is None:
+                            raise NoHandle()
                         m = getattr(c, 'set_countdown', None)
                         if m is None:
                             raise NotImplementedError()
                         m(TimeDelta(nanoseconds=int(tok[3])).in_seconds())
                     elif op in ('cbreg', 'cbrem'):
                         kind, h, cbid = tok[2], int(tok[3]), int(tok[4])
+                        if h not in self.controls:
+                            raise NoHandle()
                         job = self.controls[h]._job
                         reg = job.on_update if kind == 'u' else job.on_finished
                         obj = cbs.setdefault((kind, cbid), CbObj(self, kind, cbid))
